@@ -230,8 +230,8 @@ func and(elems []any, nonTerminals []lex.Token, defaultField string) ([]any, []l
 	// we have a valid AND clause. Replace it in the stack
 	elems = []any{
 		expr.AND(
-			wrapLiteral(left, defaultField),
-			wrapLiteral(right, defaultField),
+			left,
+			right,
 		),
 	}
 	// we consumed one terminal, the AND
@@ -263,8 +263,8 @@ func or(elems []any, nonTerminals []lex.Token, defaultField string) ([]any, []le
 	// we have a valid OR clause. Replace it in the stack
 	elems = []any{
 		expr.OR(
-			wrapLiteral(left, defaultField),
-			wrapLiteral(right, defaultField),
+			left,
+			right,
 		),
 	}
 	// we consumed one terminal, the OR
@@ -291,7 +291,7 @@ func not(elems []any, nonTerminals []lex.Token, defaultField string) ([]any, []l
 	elems = elems[:len(elems)-2]
 	elems = append(elems,
 		expr.NOT(
-			wrapLiteral(negated, defaultField),
+			negated,
 		),
 	)
 	// we consumed one terminal, the NOT
@@ -522,14 +522,4 @@ func toPositiveFloat(in string) (f float64, err error) {
 	}
 
 	return f, fmt.Errorf("[%v] is not a positive float", in)
-}
-
-// wrapLiteral will wrap a literal expression in an equals expression for a defaultField.
-// we need this because we want to support lucene expressions like a:b AND "c" which needs a default
-// field to compare "c" against to be valid.
-func wrapLiteral(lit *expr.Expression, field string) *expr.Expression {
-	if lit.Op == expr.Literal && field != "" {
-		return expr.Eq(expr.Column(field), lit)
-	}
-	return lit
 }
